@@ -21,7 +21,7 @@ struct Plan {
 fn plan(tier: Tier) -> Plan {
     match tier {
         Tier::Quick => Plan { a_len: 5, s_k: 1, depth: 1, step_cap: 5_000, cycle_top: 20_000, widths: vec![Width::W8, Width::W64] },
-        Tier::Thorough => Plan { a_len: 7, s_k: 2, depth: 2, step_cap: 20_000, cycle_top: 1_000_000, widths: Width::ALL.to_vec() },
+        Tier::Thorough => Plan { a_len: 6, s_k: 2, depth: 2, step_cap: 20_000, cycle_top: 200_000, widths: Width::ALL.to_vec() },
     }
 }
 
